@@ -11,6 +11,8 @@ package zkprm
 
 //@ func (*Proof).Verify
 //@   nopanic[C05]
+//@   modifies nothing
+//@   allocates
 //@   requires pedok(public.Aux) && hash != nil && hash.h != nil
 
 //@ func challenge
